@@ -366,8 +366,8 @@ type codecPair struct {
 }
 
 var c07CodecExceptions = map[string]string{
-	"Trailer.Marshal:hasMetaHeader":     "decode-side state: set when the 8-byte flag word is present, never serialised itself",
-	"Trailer.Marshal:size":              "decode-side state: actual extra-data length taken from the flag word's upper half",
+	"Trailer.Marshal:hasMetaHeader":       "decode-side state: set when the 8-byte flag word is present, never serialised itself",
+	"Trailer.Marshal:size":                "decode-side state: actual extra-data length taken from the flag word's upper half",
 	"TableStat.marshalStat:hasMetaHeader": "decode-side state (see Trailer)",
 	"TableStat.marshalStat:size":          "decode-side state (see Trailer)",
 }
@@ -828,13 +828,13 @@ func c07errflow(c *an.Ctx) {
 // ---------------------------------------------------------------------- R4
 
 var c07Panics = map[string]string{
-	"lib/encoding:(*Integer).encodingZSTD|panic(err)":                        "zstd.NewWriter with constant options cannot fail",
-	"lib/encoding:(*Integer).decodingSimple8b|panic(\"idx != count+1\")":     "decoder-side invariant",
+	"lib/encoding:(*Integer).encodingZSTD|panic(err)":                                "zstd.NewWriter with constant options cannot fail",
+	"lib/encoding:(*Integer).decodingSimple8b|panic(\"idx != count+1\")":             "decoder-side invariant",
 	"lib/encoding:(*String).MaxEncodedLen|panic(\"not supported compression type\")": "encodingType comes from GetCompressAlgo or a decoded valid tag; see R1",
-	"lib/encoding:(*String).encInit|panic(err)":                              "zstd.NewWriter with constant options cannot fail",
-	"lib/encoding:(*String).Encoding|panic(enc.encodingType)":                "encodingType comes from GetCompressAlgo or a decoded valid tag; see R1",
-	"lib/encoding:(*Time).simple8bDecoding|panic(\"idx != srcCount\")":       "decoder-side invariant",
-	"lib/encoding:(*Time).snappyDecoding|panic(\"len(decData) != srcLen\")":  "decoder-side invariant",
+	"lib/encoding:(*String).encInit|panic(err)":                                      "zstd.NewWriter with constant options cannot fail",
+	"lib/encoding:(*String).Encoding|panic(enc.encodingType)":                        "encodingType comes from GetCompressAlgo or a decoded valid tag; see R1",
+	"lib/encoding:(*Time).simple8bDecoding|panic(\"idx != srcCount\")":               "decoder-side invariant",
+	"lib/encoding:(*Time).snappyDecoding|panic(\"len(decData) != srcLen\")":          "decoder-side invariant",
 }
 
 func c07panics(c *an.Ctx) {
